@@ -38,8 +38,17 @@ func RunE2E(run *hlib.Run, id string, seed uint64, lg *Log, o E2EOpts) {
 	var mu sync.Mutex
 	attempts := map[int64]int{}
 	var asked []int64
+	isoSeen := map[int8]int{}
 	fetch := func(ver int16, off int64, maxBytes int32, iso int8) []byte {
+		// the broker is faithful to the REQUEST: what it returns depends on the isolation level the request
+		// carries, not on what the client was configured with
+		reqRC := iso == 1
+		limit := lg.End
+		if reqRC {
+			limit = lg.LSO
+		}
 		mu.Lock()
+		isoSeen[iso]++
 		k := attempts[off]
 		attempts[off]++
 		if len(asked) < 4096 {
@@ -67,7 +76,7 @@ func RunE2E(run *hlib.Run, id string, seed uint64, lg *Log, o E2EOpts) {
 					resp = &Resp{Kind: 'E', Code: 5}
 				}
 			}
-		case off >= lg.End || off < lg.Base:
+		case off >= limit || off < lg.Base:
 			time.Sleep(time.Millisecond)
 			resp = &Resp{Kind: 'D'}
 		default:
@@ -75,7 +84,7 @@ func RunE2E(run *hlib.Run, id string, seed uint64, lg *Log, o E2EOpts) {
 			if rr.Chance(1, 3) {
 				mu = rr.Range(1, 3)
 			}
-			resp = lg.Fetch(rr, ver, off, int(maxBytes), mu, true, o.Loose)
+			resp = lg.FetchIso(rr, ver, off, int(maxBytes), mu, true, o.Loose, reqRC)
 			if resp.Victim != nil && len(resp.Entries) > 0 && rr.Bool() {
 				resp.Victim, resp.Cut = nil, 0
 			}
@@ -121,17 +130,7 @@ func RunE2E(run *hlib.Run, id string, seed uint64, lg *Log, o E2EOpts) {
 	} else if start == sarama.OffsetNewest {
 		start = lg.End
 	}
-	var want []Msg
-	for _, u := range lg.Units {
-		if !Visible(u, o.Rc) {
-			continue
-		}
-		for _, m := range UnitMsgs(u) {
-			if m.Off >= start {
-				want = append(want, m)
-			}
-		}
-	}
+	want := lg.VisibleTo(o.Rc, start)
 	var errs []string
 	var emu sync.Mutex
 	go func() {
@@ -207,8 +206,11 @@ extraLoop:
 		}
 		emu.Lock()
 		defer emu.Unlock()
-		return fmt.Sprintf("start %d, want %d messages, got %d [%s], %d fetches, errors %v, broker %v", start, len(want), len(got),
-			strings.Join(offs, " "), nAsked, errs, rep.Messages())
+		mu.Lock()
+		seen := fmt.Sprint(isoSeen)
+		mu.Unlock()
+		return fmt.Sprintf("config %s readCommitted=%v, start %d, want %d messages, got %d [%s], %d fetches (isolation levels in the requests: %s), errors %v, broker %v",
+			o.Kv, o.Rc, start, len(want), len(got), strings.Join(offs, " "), nAsked, seen, errs, rep.Messages())
 	}
 	if timedOut {
 		fail("e2e-stream-incomplete", "timeout: "+desc())
@@ -218,6 +220,33 @@ extraLoop:
 		if got[i].Offset <= got[i-1].Offset {
 			fail("e2e-stream-offsets-not-increasing", desc())
 			return
+		}
+	}
+	wantOff := map[int64]bool{}
+	for _, w := range want {
+		wantOff[w.Off] = true
+	}
+	for _, g := range got {
+		if wantOff[g.Offset] {
+			continue
+		}
+		for _, u := range lg.Units {
+			for _, m := range UnitMsgs(u) {
+				if m.Off != g.Offset || u.Bat == nil {
+					continue
+				}
+				switch {
+				case u.Bat.Control:
+					fail("e2e-control-record-delivered", fmt.Sprintf("offset %d; %s", g.Offset, desc()))
+					return
+				case o.Rc && u.Aborted:
+					fail("e2e-aborted-record-delivered", fmt.Sprintf("offset %d; %s", g.Offset, desc()))
+					return
+				case o.Rc && u.Hi() >= lg.LSO:
+					fail("e2e-open-transaction-record-delivered", fmt.Sprintf("offset %d, last stable offset %d; %s", g.Offset, lg.LSO, desc()))
+					return
+				}
+			}
 		}
 	}
 	if len(got) != len(want) {
